@@ -872,8 +872,24 @@ fn tolerated(func: &str, class: &str, findings: &Findings) -> Option<String> {
         .map(|f| f.id.clone())
 }
 
+thread_local! {
+    static WORKER: std::cell::RefCell<Option<crate::isolate::Worker>> = const { std::cell::RefCell::new(None) };
+}
+
+/// what a worker process does with one input: the whole read API under the allocator cap
+fn child_exercise(bytes: &[u8]) -> Vec<u8> {
+    crate::alloc::set_cap(MEM_LIMIT);
+    let t0 = thread_cpu_ms();
+    let (res, mem) = measure(|| crate::engine::guard(|| exercise(bytes)));
+    let cpu = thread_cpu_ms() - t0;
+    match res {
+        Ok(opened) => crate::isolate::encode_stats(opened, None, mem, cpu, &crate::alloc::big_request_func()),
+        Err(p) => crate::isolate::encode_stats(0, Some(&p), mem, cpu, &crate::alloc::big_request_func()),
+    }
+}
+
 fn oracle_with(case: &Case, strict: bool) -> Report {
-    use crate::isolate::{encode_stats, isolated, Outcome};
+    use crate::isolate::Outcome;
     let mut rep = Report::new();
     let bytes = assemble(case);
     rep.label(
@@ -891,15 +907,16 @@ fn oracle_with(case: &Case, strict: bool) -> Report {
     }
     let case_timeout = std::env::var("CVERIF_CASE_TIMEOUT_S").ok().and_then(|s| s.parse().ok()).unwrap_or(6u64);
     let findings = Findings::load_cached();
+    // one persistent worker process per thread; a worker that died or was killed is replaced
     let run_child = || {
-        isolated(std::time::Duration::from_secs(case_timeout), || {
-            crate::alloc::set_cap(MEM_LIMIT);
-            let t0 = thread_cpu_ms();
-            let (res, mem) = measure(|| crate::engine::guard(|| exercise(&bytes)));
-            let cpu = thread_cpu_ms() - t0;
-            match res {
-                Ok(opened) => encode_stats(opened, None, mem, cpu, &crate::alloc::big_request_func()),
-                Err(p) => encode_stats(0, Some(&p), mem, cpu, &crate::alloc::big_request_func()),
+        WORKER.with(|w| {
+            let mut w = w.borrow_mut();
+            if !w.as_ref().map_or(false, |x| x.alive()) {
+                *w = crate::isolate::Worker::spawn(child_exercise);
+            }
+            match w.as_mut() {
+                Some(x) => x.run(&bytes, std::time::Duration::from_secs(case_timeout)),
+                None => Outcome::Failed("cannot fork a worker".into()),
             }
         })
     };
@@ -1240,6 +1257,248 @@ fn fuzz_phase(ctx: &mut Ctx) {
     let _ = std::fs::remove_dir_all(&root);
 }
 
+
+// ---------------------------------------------------------------------------------------------
+// systematic boundary sweep
+
+#[derive(Clone, Copy)]
+enum SweepKind {
+    /// binary part: little-endian field of `width` bytes at `off` <- value number `v`
+    Field { off: usize, width: u8, v: u8 },
+    /// XML part: attribute value (start, end) <- replacement number `v` of the menu `menu`
+    Attr { a: usize, b: usize, menu: u8, v: u8 },
+    /// XML part cut at `at`
+    Cut { at: usize },
+    /// XML part: the end tag at (a, b) removed
+    DropEnd { a: usize, b: usize },
+    /// assembled compound file: field at `off`
+    Cfb { off: usize, v: u8 },
+}
+
+#[derive(Clone, Copy)]
+struct SweepItem {
+    doc: usize,
+    part: usize,
+    kind: SweepKind,
+}
+
+const TYPES: [&str; 12] = ["s", "b", "e", "d", "str", "n", "inlineStr", "zz", "shared", "string", "float", "veryHidden"];
+
+fn field_value(cur: u32, width: u8, v: u8) -> u32 {
+    let max = if width == 2 { 0xFFFFu32 } else { 0xFFFF_FFFF };
+    match v {
+        0 => 0,
+        1 => 1,
+        2 => max,             // -1
+        3 => max - 1,         // -2
+        4 => max - 3,         // -4
+        5 => max >> 1,        // largest positive
+        6 => (max >> 1) + 1,  // smallest negative
+        7 => cur.wrapping_add(1) & max,
+        8 => cur.wrapping_sub(1) & max,
+        _ => 0x0001_0000 & max | 0x100,
+    }
+}
+
+fn wrap_container(parts: Vec<(String, Vec<u8>)>, wrap: &Wrap) -> Vec<u8> {
+    match wrap {
+        Wrap::Zip(k) => zipw::pack(parts, k),
+        Wrap::OdsZip => od::pack_parts(parts),
+        Wrap::Cfb(l) => write_cfb(&parts.into_iter().map(|(n, d)| CfbStream::root(&n, d)).collect::<Vec<_>>(), l).0,
+    }
+}
+
+fn sweep_bytes(docs: &[Container], it: &SweepItem) -> Vec<u8> {
+    let c = &docs[it.doc];
+    let mut parts = c.parts.clone();
+    match it.kind {
+        SweepKind::Field { off, width, v } => {
+            let d = &mut parts[it.part].1;
+            let mut cur = [0u8; 4];
+            cur[..width as usize].copy_from_slice(&d[off..off + width as usize]);
+            let val = field_value(u32::from_le_bytes(cur), width, v);
+            d[off..off + width as usize].copy_from_slice(&val.to_le_bytes()[..width as usize]);
+        }
+        SweepKind::Attr { a, b, menu, v } => {
+            let d = &mut parts[it.part].1;
+            let with: &str = match menu {
+                0 => NUMS[v as usize % NUMS.len()],
+                1 => REFS[v as usize % REFS.len()],
+                _ => TYPES[v as usize % TYPES.len()],
+            };
+            let mut out = d[..a].to_vec();
+            out.extend_from_slice(with.as_bytes());
+            out.extend_from_slice(&d[b..]);
+            *d = out;
+        }
+        SweepKind::Cut { at } => parts[it.part].1.truncate(at),
+        SweepKind::DropEnd { a, b } => {
+            parts[it.part].1.drain(a..b);
+        }
+        SweepKind::Cfb { off, v } => {
+            let mut bytes = wrap_container(parts, &c.wrap);
+            if off + 4 <= bytes.len() {
+                let cur = u32::from_le_bytes(bytes[off..off + 4].try_into().unwrap());
+                let val = match v {
+                    10 => ((off / 4) % 128) as u32, // a FAT entry pointing at (roughly) itself
+                    11 => 0xFFFF_FFFE,
+                    12 => 0x00FF_FFFF,
+                    v => field_value(cur, 4, v),
+                };
+                bytes[off..off + 4].copy_from_slice(&val.to_le_bytes());
+            }
+            return bytes;
+        }
+    }
+    wrap_container(parts, &c.wrap)
+}
+
+/// Every field-sized position near the start of every record of the binary parts x 10 boundary
+/// values, every numeric / reference / type attribute of the XML parts x its menu, every tag
+/// boundary as a cut point, every end tag removed, and the header / first FAT / first directory
+/// sector of compound files x 13 values: a deterministic enumeration over one generated document
+/// per base kind (two in the thorough tier). The quick tier takes every 4th item, the phase
+/// chosen by the seed; the thorough tier takes all.
+fn boundary_sweep(ctx: &mut Ctx) {
+    const STRIDE: usize = 4;
+    let seeds: &[u64] = if ctx.quick() { &[0] } else { &[0, 0x51ED_270B_A5C3_9E17] };
+    let mut docs: Vec<Container> = vec![];
+    for base in 0..NBASES {
+        for s in seeds {
+            docs.push(build(base, *s));
+        }
+    }
+    let mut items: Vec<SweepItem> = vec![];
+    for (di, c) in docs.iter().enumerate() {
+        for (pi, (name, data)) in c.parts.iter().enumerate() {
+            if name == "[Content_Types].xml" || name.starts_with("docProps") {
+                continue;
+            }
+            match part_class(name) {
+                cls @ (1 | 2) => {
+                    let recs = if cls == 2 { biff12_records(data) } else { biff8_records(data) };
+                    for (_, ps, pe) in recs {
+                        // fields sit near the start of a record; long tails are character data
+                        for off in ps..pe.min(ps + 48) {
+                            for width in [2u8, 4] {
+                                if off + width as usize <= pe {
+                                    for v in 0..10u8 {
+                                        items.push(SweepItem { doc: di, part: pi, kind: SweepKind::Field { off, width, v } });
+                                    }
+                                }
+                            }
+                        }
+                    }
+                }
+                0 => {
+                    let Ok(text) = std::str::from_utf8(data) else { continue };
+                    for (a, b) in attr_values(text, &|_, v| !v.is_empty() && v.bytes().all(|c| c.is_ascii_digit())) {
+                        for v in 0..NUMS.len() as u8 {
+                            items.push(SweepItem { doc: di, part: pi, kind: SweepKind::Attr { a, b, menu: 0, v } });
+                        }
+                    }
+                    for (a, b) in attr_values(text, &|n, _| matches!(n, "r" | "ref" | "sqref" | "table:cell-range-address" | "activeCell")) {
+                        for v in 0..REFS.len() as u8 {
+                            items.push(SweepItem { doc: di, part: pi, kind: SweepKind::Attr { a, b, menu: 1, v } });
+                        }
+                    }
+                    for (a, b) in attr_values(text, &|n, _| matches!(n, "t" | "office:value-type" | "state" | "Type")) {
+                        for v in 0..TYPES.len() as u8 {
+                            items.push(SweepItem { doc: di, part: pi, kind: SweepKind::Attr { a, b, menu: 2, v } });
+                        }
+                    }
+                    let tags: Vec<usize> = text.match_indices('<').map(|(i, _)| i).chain(text.match_indices('>').map(|(i, _)| i + 1)).collect();
+                    let step = (tags.len() / 400).max(1);
+                    for at in tags.iter().step_by(step) {
+                        items.push(SweepItem { doc: di, part: pi, kind: SweepKind::Cut { at: *at } });
+                    }
+                    let ends: Vec<(usize, usize)> = text.match_indices("</").filter_map(|(i, _)| text[i..].find('>').map(|e| (i, i + e + 1))).collect();
+                    let step = (ends.len() / 200).max(1);
+                    for (a, b) in ends.iter().step_by(step) {
+                        items.push(SweepItem { doc: di, part: pi, kind: SweepKind::DropEnd { a: *a, b: *b } });
+                    }
+                }
+                _ => {}
+            }
+        }
+        if let Wrap::Cfb(l) = &c.wrap {
+            let ss = if l.v4 { 4096 } else { 512 };
+            let plain = wrap_container(c.parts.clone(), &c.wrap);
+            let rd = |o: usize| u32::from_le_bytes(plain[o..o + 4].try_into().unwrap());
+            let mut offs: Vec<usize> = (24..124).step_by(2).collect();
+            for sector in [rd(76) as usize, rd(48) as usize, rd(60) as usize] {
+                let base = (sector + 1) * ss;
+                if sector < 0xFFFF_FFF0 && base + ss <= plain.len() {
+                    offs.extend((base..base + 512.min(ss)).step_by(4));
+                }
+            }
+            for off in offs {
+                for v in 0..13u8 {
+                    items.push(SweepItem { doc: di, part: 0, kind: SweepKind::Cfb { off, v } });
+                }
+            }
+        }
+    }
+    let total = items.len();
+    let phase = (ctx.seed as usize) % STRIDE;
+    let chosen: Vec<SweepItem> = if ctx.quick() { items.into_iter().skip(phase).step_by(STRIDE).collect() } else { items };
+    let failures = std::sync::Mutex::new(std::collections::BTreeMap::<String, (Case, String)>::new());
+    let tolerated = std::sync::atomic::AtomicU64::new(0);
+    let completed = std::sync::atomic::AtomicU64::new(0);
+    let next = std::sync::atomic::AtomicUsize::new(0);
+    std::thread::scope(|sc| {
+        for _ in 0..ctx.threads {
+            sc.spawn(|| loop {
+                let i = next.fetch_add(1, std::sync::atomic::Ordering::Relaxed);
+                let Some(it) = chosen.get(i) else { break };
+                let bytes = match crate::engine::guard(|| sweep_bytes(&docs, it)) {
+                    Ok(b) => b,
+                    Err(p) => {
+                        eprintln!("HARNESS-SELF-CHECK: the sweep could not build its input: {p}");
+                        std::process::exit(2);
+                    }
+                };
+                if bytes.len() > (1 << 20) {
+                    continue;
+                }
+                let case = Case { base: 0, seed: 0, faults: vec![], bytes_hex: Some(bytes.iter().map(|b| format!("{b:02x}")).collect()) };
+                let rep = oracle(&case);
+                if rep.excluded.is_some() {
+                    tolerated.fetch_add(1, std::sync::atomic::Ordering::Relaxed);
+                }
+                if rep.nontrivial {
+                    completed.fetch_add(1, std::sync::atomic::Ordering::Relaxed);
+                }
+                if let Some(msg) = rep.verdict {
+                    let sig = msg.rsplit("[signature: ").next().unwrap_or("").to_string();
+                    failures.lock().unwrap().entry(sig).or_insert((case, msg));
+                }
+            });
+        }
+    });
+    for (_, (case, msg)) in failures.into_inner().unwrap() {
+        if msg.contains("HARNESS-SELF-CHECK") {
+            eprintln!("{msg}");
+            std::process::exit(2);
+        }
+        ctx.report_violation("faults", &case, &format!("boundary sweep: {msg}"));
+    }
+    let n = chosen.len() as u64;
+    let mut labels = std::collections::BTreeMap::new();
+    labels.insert("items enumerated".to_string(), total as u64);
+    labels.insert("items run".to_string(), n);
+    labels.insert("tolerated (recorded known finding)".to_string(), tolerated.into_inner());
+    ctx.record_sweep(
+        "boundary-sweep",
+        n,
+        completed.into_inner().max(2),
+        labels,
+        vec![serde_json::json!({"documents": docs.len(), "stride": if ctx.quick() { STRIDE } else { 1 }, "phase": phase})],
+        !ctx.quick(),
+        "deterministic enumeration: (field position near the start of each record) x (10 boundary values) for BIFF8/BIFF12 parts, attribute x menu / cut points / dropped end tags for XML parts, header + first FAT / directory / mini-FAT sector x 13 values for compound files; quick = every 4th item (phase = seed mod 4), thorough = all",
+    );
+}
+
 /// Exhaustive sweep: every formula token id 0x01..=0x7F followed by 0..=11 operand bytes (three
 /// fill patterns), as the whole expression of an xls FORMULA record and of an xlsb BrtFmlaNum
 /// record. A slip in an operand-size table shows up as a panic on a particular (token, length).
@@ -1322,14 +1581,15 @@ fn run(ctx: &mut Ctx) {
         write_witnesses(&dir);
     }
 
-    let n = ctx.n(2000, 400_000);
+    let n = ctx.n(6000, 400_000);
     ctx.max_shrink_iters = 150;
     ctx.run("faults", n, case_strategy, oracle);
-    let n = ctx.n(500, 100_000);
+    let n = ctx.n(1500, 100_000);
     ctx.run("valid", n, valid_strategy, oracle);
     ctx.max_shrink_iters = 4000;
     embed_bytes(ctx);
     ptg_sweep(ctx);
+    boundary_sweep(ctx);
     fuzz_phase(ctx);
     ctx.assumptions.push("inputs are <= 1 MiB; 'memory out of proportion' = more than 256 MiB requested at once or live at the peak (valid files of this size stay below 40 MiB); 'hang' = more than 10 s of thread CPU time, or no progress for 120 s (watchdog), confirmed in isolation by the supervisor".into());
     ctx.assumptions.push("panics recorded in known_findings.json are tolerated by (innermost calamine function, message class); every other panic is a violation".into());
